@@ -49,7 +49,7 @@ def build_tree_skip_grams(
         This is the array of the labels of the rows and columns of our matrix.
     """
     weights = kernel_function(-np.ones(window_size), *kernel_args)
-    count_matrix = adjacency_matrix * weights[0]
+    count_matrix = (adjacency_matrix * weights[0]).astype(np.float64)
     walk = adjacency_matrix
     for i in range(1, window_size):
         walk = walk @ adjacency_matrix
